@@ -88,6 +88,19 @@ pub struct Instance {
     pub labels: Vec<String>,
 }
 
+impl Instance {
+    /// A proof over a trace whose columns are all constant consists of zero quotients only: nothing in it
+    /// but the query positions and the proof-of-work nonce depends on the public-coin seed, so it is bound
+    /// to its seed (context and public inputs) by queries * log2(lde size) + grinding bits and no more.
+    /// Below 40 such bits "the same proof under another seed is accepted" is an event of the stated
+    /// soundness error, not a defect; the acceptance-after-change oracles (C02, C03) leave these out and count them.
+    pub fn weak_seed_binding(&self) -> bool {
+        let constant = self.trace.iter().all(|c| c.iter().all(|v| *v == c[0]));
+        let lde_bits = self.desc.log_n as usize + self.opts.blowup.trailing_zeros() as usize;
+        constant && self.opts.queries * lde_bits + (self.opts.grinding as usize) < 40
+    }
+}
+
 #[derive(Clone, Debug, PartialEq, Eq, Serialize, Deserialize)]
 pub struct RealOpts {
     pub queries: usize,
